@@ -79,10 +79,13 @@ for name, f, old, new in M:
     if sel and not any(name.startswith(p) for p in sel):
         continue
     n += 1
-    src = open(os.path.join(REPO, f)).read()
+    # line endings are kept as they are in the repository (some files have CRLF: a patch with LF lines would not apply)
+    src = open(os.path.join(REPO, f), newline="").read()
+    if "\r\n" in src:
+        old, new = old.replace("\n", "\r\n"), new.replace("\n", "\r\n")
     if src.count(old) < 1:
         print("PATTERN NOT FOUND", name); continue
     dst = src.replace(old, new, 1)
     d = difflib.unified_diff(src.splitlines(True), dst.splitlines(True), "a/" + f, "b/" + f)
-    open(os.path.join(root, "mutants", name + ".diff"), "w").write("".join(d))
+    open(os.path.join(root, "mutants", name + ".diff"), "w", newline="").write("".join(d))
 print("written", n)
